@@ -22,7 +22,6 @@ import (
 	"strconv"
 	"strings"
 	"time"
-	"unsafe"
 
 	"github.com/9elements/converged-security-suite/v2/pkg/bootflow/actions/commonactions"
 	"github.com/9elements/converged-security-suite/v2/pkg/bootflow/actions/tpmactions"
@@ -276,8 +275,7 @@ type built struct {
 	actors  map[int]*hActor
 	dss     map[int]*hDS
 	chain   *hChain
-	reg     []regEntry  // top-level steps with their sids
-	funcs   []funcEntry // the flow-choosing functions handed to SetFlowFunc / SetFlowFromFunc
+	reg     []regEntry // top-level steps with their sids
 	tpm     *tpm.TPM
 	state   *types.State
 	process *bootengine.BootProcess
@@ -288,13 +286,7 @@ type regEntry struct {
 	sid  int
 }
 
-type funcEntry struct {
-	f   func(*types.State) types.Flow // keeps the closure alive
-	ptr unsafe.Pointer                // the closure object
-	id  int
-}
-
-// chooser builds the Go function of a gFun and remembers its identity.
+// chooser builds the Go function of a gFun.
 func (b *built) chooser(id int, fn *gFun) func(*types.State) types.Flow {
 	var eval func(fn *gFun, s *types.State) types.Flow
 	eval = func(fn *gFun, s *types.State) types.Flow {
@@ -309,25 +301,7 @@ func (b *built) chooser(id int, fn *gFun) func(*types.State) types.Flow {
 		}
 		panic(fmt.Sprintf("flow function %d panics", id))
 	}
-	f := func(s *types.State) types.Flow { return eval(fn, s) }
-	b.funcs = append(b.funcs, funcEntry{f: f, ptr: *(*unsafe.Pointer)(unsafe.Pointer(&f)), id: id})
-	return f
-}
-
-// funcID: which of the registered functions a *commonactions.setFlowFunc
-// (a struct whose only field is the function) carries; -99 if none.
-func (b *built) funcID(a types.Action) int {
-	v := reflect.ValueOf(a)
-	if v.Kind() != reflect.Ptr || v.Elem().Kind() != reflect.Struct || v.Elem().NumField() != 1 || v.Elem().Field(0).Kind() != reflect.Func {
-		return -99
-	}
-	p := *(*unsafe.Pointer)(v.UnsafePointer())
-	for _, e := range b.funcs {
-		if e.ptr == p {
-			return e.id
-		}
-	}
-	return -99
+	return func(s *types.State) types.Flow { return eval(fn, s) }
 }
 
 func flowName(n int) string { return "F" + strconv.Itoa(n) }
@@ -567,7 +541,7 @@ func dsID(d types.DataSource) int {
 	return -99
 }
 
-func (b *built) actionCode(a types.Action) [2]int {
+func actionCode(a types.Action) [2]int {
 	switch v := a.(type) {
 	case *commonactions.SetFlowStruct:
 		return [2]int{aSetFlow, flowID(v.NextFlow.Name)}
@@ -596,7 +570,9 @@ func (b *built) actionCode(a types.Action) [2]int {
 	case "commonactions.panicT":
 		return [2]int{aPanic, 0}
 	case "*commonactions.setFlowFunc":
-		return [2]int{aSetFlowFunc, b.funcID(a)}
+		// which function it carries is not observable (and not part of the
+		// statement); what the function answers shows in the steps that follow
+		return [2]int{aSetFlowFunc, 0}
 	}
 	return [2]int{99, 0}
 }
@@ -627,7 +603,7 @@ func (b *built) observe(done bool) obsResult {
 	for _, e := range b.process.Log {
 		oe := obsEntry{Sid: b.sidOf(e.Step), Actions: [][2]int{}, Issues: []int{}, Actor: actorID(e.Actor), Code: -1}
 		for _, a := range e.Actions {
-			oe.Actions = append(oe.Actions, b.actionCode(a))
+			oe.Actions = append(oe.Actions, actionCode(a))
 		}
 		for _, is := range e.Issues {
 			code := issueCode(is.Coords)
@@ -1053,8 +1029,6 @@ func wantCode(a gAct) [2]int {
 		return [2]int{aMeasure, a.ID}
 	case aCustom:
 		return [2]int{aCustom, a.ID}
-	case aSetFlowFunc:
-		return [2]int{aSetFlowFunc, a.ID}
 	}
 	return [2]int{a.K, 0}
 }
@@ -1518,6 +1492,43 @@ func (g *gen) step(depth, switchPct int) *gStep {
 	}
 }
 
+// loop rewrites the root flow into a short loop: every round measures, and the
+// last step asks a function whether to go round again, so that the SAME
+// function-based set-flow step / action object is applied several times with
+// different answers (first "again", finally "leave").
+func (g *gen) loop(gc *gCase, nf int) {
+	g.targets = g.targets[:0]
+	for j := 1; j < nf; j++ {
+		g.targets = append(g.targets, j)
+	}
+	var steps []gTop
+	for i := g.rn(3); i > 0; i-- {
+		steps = append(steps, g.top(g.step(1, 0)))
+	}
+	m := gAct{K: aCustom, ID: g.id(), Meas: g.id(), Flow: -1, Actor: -1, Res: g.rn(3)}
+	rounds := 2 + g.rn(3)
+	again := &gCond{K: cMeasuredLt, N: len(gc.Meas0) + rounds}
+	fn := &gFun{K: fIf, Cond: again, T: &gFun{K: fFlow, Flow: 0}, E: g.fun(1)}
+	if g.p(30) {
+		fn = &gFun{K: fIf, Cond: &gCond{K: cNot, Sub: again}, T: fn.E, E: fn.T}
+	}
+	fa := gAct{K: aSetFlowFunc, ID: g.id(), Fn: fn, Flow: -1, Actor: -1, Meas: -1}
+	switch r := g.rn(100); {
+	case r < 35: // measuring step, then a static step holding the action object
+		steps = append(steps, g.top(&gStep{K: sStatic, Acts: []gAct{m}}), g.top(&gStep{K: sStatic, Acts: []gAct{fa, g.act(0)}}))
+	case r < 60: // one static step: measure, then ask
+		steps = append(steps, g.top(&gStep{K: sStatic, Acts: []gAct{m, fa, g.act(0)}}))
+	case r < 80: // SetFlowFromFunc step
+		steps = append(steps, g.top(&gStep{K: sStatic, Acts: []gAct{m}}), g.top(&gStep{K: sSetFlowFunc, ID: fa.ID, Fn: fn}))
+	default: // merged: measure, SetFlowFromFunc, something to skip
+		steps = append(steps, g.top(&gStep{K: sMerge, Subs: []*gStep{{K: sStatic, Acts: []gAct{m}}, {K: sSetFlowFunc, ID: fa.ID, Fn: fn}, g.step(0, 0)}}))
+	}
+	if g.p(50) {
+		steps = append(steps, g.top(g.step(1, 0))) // reached only if the function panicked
+	}
+	gc.Flows[0].Steps = steps
+}
+
 func (g *gen) top(s *gStep) gTop {
 	// all nil StaticSteps (MergeSteps) are one and the same Go value: they share a sid
 	if s.Nil && s.K == sStatic {
@@ -1579,6 +1590,9 @@ func (g *gen) family(acyclic bool) *gCase {
 			f.Steps = append(f.Steps, g.top(g.step(2, sp)))
 		}
 		gc.Flows = append(gc.Flows, f)
+	}
+	if !acyclic && g.p(40) {
+		g.loop(gc, nf)
 	}
 	if g.p(3) {
 		gc.Root = 100 // run a flow with nil Steps
